@@ -26,7 +26,9 @@ class Server(threading.Thread):
 
     def __init__(self, name):
         super().__init__(daemon=True)
-        self.name_ = name
+        # the desktop name is bytes on the wire, in no particular encoding (RFC 6143 7.3.2): one server's name is not valid UTF-8
+        self.wire_name = name if isinstance(name, bytes) else name.encode()
+        self.name_ = self.wire_name.decode("latin-1")
         self.sock = socket.socket()
         self.sock.bind(("127.0.0.1", 0))
         self.sock.listen(8)
@@ -71,7 +73,7 @@ class Server(threading.Thread):
                 buf += conn.recv(64)
             conn.sendall(struct.pack("!I", 1))
             conn.recv(1)
-            nm = self.name_.encode()
+            nm = self.wire_name
             conn.sendall(struct.pack("!HH", 4, 4) + vclient.RGB32.to_bytes() + struct.pack("!I", len(nm)) + nm)
             conn.settimeout(0.5)
             while not self.stop:
@@ -240,7 +242,7 @@ def log(*ev):
 class ProbeClient(vclient.VNCDoToolClient):
     def op_fast(self, tag):
         log("start", self.name, tag); log("finish", self.name, tag)
-        return ("fast", self.name.decode(), tag)
+        return ("fast", self.name.decode("latin-1"), tag)
 
     def op_slow(self, tag, delay=0.03):
         log("start", self.name, tag)
@@ -248,13 +250,13 @@ class ProbeClient(vclient.VNCDoToolClient):
 
         def fire():
             log("finish", self.name, tag)
-            d.callback(("slow", self.name.decode(), tag))
+            d.callback(("slow", self.name.decode("latin-1"), tag))
         reactor.callLater(delay, fire)
         return d
 
     def op_fail(self, tag):
         log("start", self.name, tag); log("finish", self.name, tag)
-        raise OpError("fail %s %s" % (self.name.decode(), tag))
+        raise OpError("fail %s %s" % (self.name.decode("latin-1"), tag))
 
     def op_afail(self, tag, delay=0.02):
         log("start", self.name, tag)
@@ -262,7 +264,7 @@ class ProbeClient(vclient.VNCDoToolClient):
 
         def fire():
             log("finish", self.name, tag)
-            d.errback(OpError("afail %s %s" % (self.name.decode(), tag)))
+            d.errback(OpError("afail %s %s" % (self.name.decode("latin-1"), tag)))
         reactor.callLater(delay, fire)
         return d
 
@@ -306,7 +308,7 @@ def run(ctx):
     # ("Unhandled error in Deferred"), possibly after the verdict line: send Twisted's log nowhere
     from twisted.python import log as tlog
     tlog.startLoggingWithObserver(lambda event: None, setStdout=False)
-    srvA, srvB = Server("srvA"), Server("srvB")
+    srvA, srvB = Server("srvA"), Server(b"srvB-B\xfcro")
     real_operation_leg(ctx)
     real_capture_leg(ctx)
     srvAuth = Server("srvAuth")
@@ -368,7 +370,7 @@ def run(ctx):
                 continue
             ok = True
             for ci, (calls, out) in enumerate(zip(specs, outs)):
-                srvname = ("srvA", "srvB")[ci]
+                srvname = (srvA.name_, srvB.name_)[ci]
                 for tag, kind in enumerate(calls):
                     if tag >= len(out):
                         ctx.violate("call-blocks", dict(rp, observed="client %d call %d (%s) never returned" % (ci, tag, kind)))
@@ -396,13 +398,13 @@ def run(ctx):
             # reactor side: operations of one client start in call order and never overlap
             with LOGLOCK:
                 lg = list(LOG)
-            for name in (b"srvA", b"srvB"):
+            for name in (srvA.wire_name, srvB.wire_name):
                 evs = [(e[0], e[2]) for e in lg if e[1] == name]
                 want = []
                 for tag in range(len([e for e in evs if e[0] == "start"])):
                     want += [("start", tag), ("finish", tag)]
                 if evs != want and ok:
-                    ctx.violate("overlap-or-reorder", dict(rp, observed="reactor-side log of %s: %r" % (name.decode(), evs[:12])))
+                    ctx.violate("overlap-or-reorder", dict(rp, observed="reactor-side log of %s: %r" % (name.decode("latin-1"), evs[:12])))
             # model: the same schedule as a run of the LTS (sequential per client; clients interleaved call by call)
             labels = []
             for ci, calls in enumerate(specs):
